@@ -21,7 +21,7 @@ structure Res where
   /-- the layer chain of the global's type as the typer builds it from the spelling (object kind, typedef chain, `const`
       keyword, storage class, declarator dimensions); unused for a cbuffer -/
   ty : Ty
-  /-- the typedefs of the spelling live in `namespace TN<i>` -/
+  /-- the typedefs of the spelling live in `namespace TN<i>` (a joined declarator shares the typedefs of the declaration) -/
   tdns : Bool
   group : Option Nat
   ss : Bool
@@ -138,7 +138,7 @@ def parseRes (s : String) : Option Res :=
     let sp ← match opts.find? (·.startsWith "T") with
       | some o => parseSpell (o.drop 1).toString
       | none => some { ns := false, steps := [], constKw := false }
-    pure { name, cb, ty := globalTy base sp.steps sp.constKw st dims, tdns := sp.ns, group, ss, bl, st,
+    pure { name, cb, ty := globalTy base sp.steps sp.constKw st dims, tdns := sp.ns && !opts.contains "j", group, ss, bl, st,
            empty := opts.contains "E",
            -- `[[vk::binding(i, g)]]` always carries an index
            hasIndex := opts.any (fun o => o.startsWith "ri" || o.startsWith "vi") || (opts.contains "gv" && group.isSome),
